@@ -77,3 +77,21 @@ def match_expected(expected: list, actual: list) -> str | None:
 
 def show_timed(xs: list) -> list:
     return [[t, k, show(v) if not isinstance(v, type) else v.__name__] for (t, k, v) in xs]
+
+
+def run_twice(build: Callable[[Lab, Any], Any], msgs1: list, msgs2: list, clock: str = "num", sub_at: float = SUB_AT) -> tuple:
+    """The observable is built ONCE over a cold source that yields msgs1 to its first and msgs2 to its second subscription;
+    it is subscribed at sub_at and again after the first timeline is over. Returns (lab, obs1, obs2, t2)."""
+    lab = Lab(clock)
+    src = lab.cold("s", msgs1, alt_msgs=[msgs2])
+    obs1, obs2 = lab.observer("first"), lab.observer("second")
+    holder: dict = {}
+
+    def sub1() -> None:
+        holder["o"] = build(lab, src)
+        obs1.subscribe_to(holder["o"])
+    t2 = sub_at + (max([m[0] for m in msgs1]) if msgs1 else 0) + 35.0
+    lab.at(sub_at, sub1)
+    lab.at(t2, lambda: obs2.subscribe_to(holder["o"]))
+    lab.run()
+    return lab, obs1, obs2, t2
